@@ -1,0 +1,18 @@
+//go:build verif
+
+// Contracts for package syntax (machine-checked by /verif/engine; comment-only file).
+package syntax
+
+// ParseFile: on success the tree satisfies the parser's file invariant and spans the text from its
+// first byte - which is exactly what the formatter requires.
+//@ func ParseFile
+//@   modifies nothing
+//@   ensures result.1 == nil ==> okFile(result.0) && inText(result.0.Range) && result.0.Range.Start == 0 && result.0.Range.End == len(result.0.Range.Text)
+//@   ensures @printable: result.1 == nil ==> prFile(result.0)
+//
+// FormatFile always formats - whatever the number of directives (a file of comments only is copied
+// verbatim by Format's tail gap).
+//@ func FormatFile
+//@   requires prFile(f)
+//@   callback Format=0
+//@   ensures [C08] [C18] @always: tlen() == old(tlen()) + 1 && targ("Format", 0, old(tlen())) == f && result == tres("Format", old(tlen()))
